@@ -35,7 +35,7 @@ def infer_via_traces(vs, k):
     for v in vs:
         t = get_type(v, k)
         traces.append(CallTrace(_traced, {"x": t}, t, t))
-    args, ret, yld = shrink_traced_types(traces, k)
+    args, ret, yld = shrink_traced_types((t for t in traces), k)  # an Iterable, as documented: here a one-shot generator
     return args["x"], ret, yld
 
 
